@@ -69,8 +69,27 @@ def _systematic(kind):
           if kind == 'mux' and reply_first and nreq:
             steps.append(['adv', 10])
             steps.append(['reply', 0])
-          steps += [['adv', 50], ['probe'], ['adv', 700], ['probe'], ['adv', 6000], ['probe'], ['adv', 100]]
+          steps += [['adv', 50], ['probe'], ['adv', 700], ['probe'], ['adv', 6000], ['probe'],
+                    ['adv', 50000 if (kind == 'mux' and fk == 'hang') else 100], ['probe'], ['adv', 100]]
           out.append({'kind': kind, 'fault_at': {'0': {str(opn): fk}}, 'steps': steps, 'plans': [['ok', 0]], 'rseed': opn})
+  if kind == 'thrift':
+    # transport-level timeout, then the re-connect is slow / refused / hangs, with traffic in the window
+    for plan1 in (['ok', 0], ['ok', 30], ['ok', 200], ['refuse', 0], ['refuse', 30], ['hang']):
+      for gap in (0, 10, 40, 250):
+        for T2 in (0, 53):
+          steps = [['open'], ['adv', 20], ['req', 1, 53], ['adv', 60 + gap], ['req', 2, T2], ['adv', 10], ['reply', 0],
+                   ['adv', 300], ['probe'], ['req', 3, 0], ['adv', 10], ['reply', 0], ['adv', 700], ['probe'], ['adv', 100]]
+          out.append({'kind': kind, 'fault_at': {}, 'steps': steps, 'plans': [['ok', 0], plan1, ['ok', 0]], 'rseed': gap})
+  else:
+    # the peer stops answering pings (with / without requests in flight), for longer than the detection time
+    for nreq in (0, 1, 3):
+      for T in (0, 503):
+        for when in (20, 20000, 33000):
+          steps = [['open'], ['adv', when]]
+          for r in range(nreq):
+            steps.append(['req', r + 1, T])
+          steps += [['adv', 10], ['silent', 1], ['adv', 30000], ['adv', 20000], ['probe'], ['adv', 100]]
+          out.append({'kind': kind, 'fault_at': {}, 'steps': steps, 'plans': [['ok', 0]], 'rseed': when})
   return out
 
 
@@ -246,6 +265,8 @@ def run_case(script):
         ev.append({'e': 'Reopen', 't': ms()})
       ev.append({'e': 'Opened', 'ok': 1, 't': ms()})
       state['owner_closed'] = False
+    elif k == 'recv_hang' and kind == 'mux':
+      ev.append({'e': 'Silence', 'on': 1, 't': ms()})
     elif k == 'srv_frame':
       ev.append({'e': 'FrameOut', 'type': e['mtype'], 'tag': e['tag'], 't': ms()})
     elif k == 'consumed' and kind == 'mux':
@@ -294,7 +315,10 @@ def run_case(script):
       gevent.spawn(do_open)
       loop.run_until_idle()
     elif k == 'req':
-      if op[1] not in reqs:
+      # the serial transport is only ever handed requests after its Open() has completed (the pool
+      # waits for it); the mux transport parks early requests itself
+      early = kind == 'thrift' and state['connected'] == 0 and any(c.waiting == 'connect' for c in net.conns)
+      if op[1] not in reqs and not early:
         issue(op[1], op[2])
     elif k == 'reply':
       un = [p for p in peer.unanswered() if not p.conn.closed and p.reply is not None]
@@ -311,6 +335,7 @@ def run_case(script):
     elif k == 'silent':
       if kind == 'mux':
         peer.ping_mode = 'silent' if op[1] else 'answer'
+        ev.append({'e': 'Silence', 'on': 1 if op[1] else 0, 't': ms()})
     elif k == 'stepq':
       loop.step(op[1])
     elif k == 'adv':
